@@ -171,7 +171,7 @@ PROPS['C09'] = dict(
          '4*(k+1)*u*sum|x||y| for reals; all other kernels compared bitwise with the pattern written from the header text. non-trivial = rows != cols for a rectangular kernel, three pairwise different '
          'dimensions for a product, or T1 on n >= 3; distinct = hash of (kernel, dimensions, contents)',
     assumptions=COMMON_ASSUME + ['dimensions >= 1 as the statement quantifies', 'reference: long double triple loop on explicitly transposed index expressions'],
-    units=lambda tier, seed: [Unit(nm, 'exec/C09.cc', ['linalg.c'], defs=config_defs(real), exec_defs=['-DVP_MAXDIM=%d' % (20 if tier == 'thorough' else 9)],
+    units=lambda tier, seed: [Unit(nm, 'exec/C09.cc', ['a.c', 'linalg.c'], defs=config_defs(real), exec_defs=['-DVP_MAXDIM=%d' % (20 if tier == 'thorough' else 9)],
                                    tape_len=400 if tier == 'thorough' else 256, config='a_real = %s (A_SIZE_REAL=%d)' % (ty, real))
                               for nm, real, ty in (('linalg', 8, 'double'), ('linalg-f32', 4, 'float'), ('linalg-f80', 16, 'long double'))],
     plan={'quick': dict(rc_procs=5, rc_cases=40000, fuzz_procs=2, fuzz_secs=20),
@@ -466,9 +466,9 @@ _ADDED = {
     'C04': 'per history the one-byte key of an element sits in byte 0 or in byte 1 behind a byte that is mostly NUL (comparator, model and search probe follow); typed macro spellings (A_VEC_PUSH_BACK ... A_BUF_SEARCH) alternate with the functions',
     'C06': 'bytes >= 0x80 are passed to catc half of the time the way a signed char promotes (negative; 0xFF = -1); a_str_setm_ sets the capacity exactly (shrink to fit or a little above the length)',
     'C08': 'a general class whose first-column pivot candidates agree to a relative 2^-21 .. 2^-50 in either order and sign (the larger has to win: multipliers stay <= 1)',
-    'C09': 'the integer class also holds infinite entries: a cell whose terms contain one is that infinity, cells whose value is indeterminate (inf * 0, inf - inf) are not judged',
+    'C09': 'the units run under the allocator shim and in half of the cases every allocation request is refused (the kernels are void functions and must be right either way); the integer class also holds infinite entries: a cell whose terms contain one is that infinity, cells whose value is indeterminate (inf * 0, inf - inf) are not judged',
     'C10': 'further argument classes: both components independently from a pool of named constants (e, 2, 10, pi, pi/2, ln 2, sqrt 2, 1/e, ...); for pow_real exponents at the limits of the integer types (+-2^31, 2^31+-1, 2^32, 2^15, 2^16, 2^24, ...) with the base within exp(+-600/|s|) of the unit circle, judged with the closed-form condition |s||f|(1+|log z|) and only while |s| u <= 2^-10',
-    'C11': 'the norms are asked again with the same arguments after an in-place change of the last component (the value follows the data, not the pointer)',
+    'C11': 'a_real_fill with values of any bit pattern, in particular repeating byte / 16-bit / 32-bit groups, compared bit for bit; the norms are asked again with the same arguments after an in-place change of the last component (the value follows the data, not the pointer)',
     'C12': 'one table object may be registered for both inputs (me == mec); a twin controller is stepped m times with one constant sample and the results discarded, against the same steps with every result used; in the exact class one integrator clamp in twelve is a small multiple of ki moved outwards by 2^-30, with small integer errors, so that sums land exactly on the integer next to the clamp',
     'C13': 'one table object may be registered for both inputs (me == mec)',
     'C14': 'the lattice class includes bell moves of length zero that reverse their velocity (feasible whenever v0 + v1 < 0)',
